@@ -86,6 +86,7 @@ typedef std::vector<std::string> Toks;
 
 #include "drv_enc.inc"
 #include "drv_time.inc"
+#include "drv_dec.inc"
 #include "drv_more.inc"
 
 int main(int argc, char** argv) {
@@ -101,6 +102,7 @@ int main(int argc, char** argv) {
             if (c == "CASE") { reset_all(); OUT("CASE %s", t.size() > 1 ? t[1].c_str() : ""); }
             else if (c == "E") cmd_enc(t);
             else if (c == "T") cmd_time(t);
+            else if (c == "D") cmd_dec(t);
             else if (!cmd_more(t)) OUT("? unknown command %s", c.c_str());
         }
         catch (std::exception& e) { OUT("throw %s", classify(e)); }
